@@ -88,7 +88,22 @@ def run(chk):
             spec["g"] = (t, extra + ["k"])
             spec["h"] = ("not", ["g"])
             const_models.append((f"{t}-with-const{kc}-{len(extra)}", build(spec, outputs=["h"])))
-    fams = const_models + list(one_gate_circuits(max_arity=3)) + list(deep_circuits()) + list(two_level_circuits(limit=80 if chk.tier == "quick" else None))
+    wide_models = list(one_gate_circuits(max_arity=5 if chk.tier == "quick" else 6, types=["and", "nand", "or", "nor"]))
+    wide_models = [(k, c) for k, c in wide_models if int(k[-1]) >= 4]
+    name_models = []
+    for order in (["a", "b", "g", "a_not", "h"], ["a", "b", "a_not", "g", "h"]):
+        spec = {"a": ("input", []), "b": ("input", []), "g": ("nor", ["a", "b"]), "a_not": ("nand", ["a", "b"]), "h": ("and", ["a_not", "g"])}
+        c = RefCircuit(name="m")
+        for n_ in order:
+            c.graph.add_node(n_, type=spec[n_][0], output=n_ == "h")
+        for n_ in order:
+            for f in spec[n_][1]:
+                c.graph.add_edge(f, n_)
+        name_models.append((f"net-named-like-a-helper::{'-'.join(order)}", c))
+    for helper in ("a_is_1", "a_is_0", "g_x_in_fi", "g_1_not_in_fi", "a_not_x", "a_not_X", "a_X"):
+        spec = {"a": ("input", []), "b": ("input", []), "g": ("or", ["a", "b"]), helper: ("not", ["b"]), "h": ("nand", ["g", helper, "a"])}
+        name_models.append((f"net-named-{helper}", build(spec, outputs=["h"])))
+    fams = const_models + name_models + wide_models + list(one_gate_circuits(max_arity=3)) + list(deep_circuits()) + list(two_level_circuits(limit=80 if chk.tier == "quick" else None))
     n = 0
     for kname, c in fams:
         snap = c._snapshot()
@@ -110,4 +125,14 @@ def run(chk):
     cbb = build({"a": ("input", []), "u.d": ("bb_input", ["a"]), "u.q": ("bb_output", []), "w": ("buf", ["u.q"])}, outputs=["w"], blackboxes={"u": bb})
     r = P.call(FILE, "ternary", cbb)
     chk.ob("C10.G.blackbox-guard", "ternary::circuit with a blackbox", r[0] == "raise" and r[1] == "ValueError", file=FILE, func="ternary", line=fi.node.lineno, fact={"result": str(r)[:120]}, expect="ValueError")
+    from ..stale import circuit_snapshot, stale_state_rule
+    from ..minieval import ModelRaise
+
+    def _call(c):
+        r = P.call(FILE, "ternary", c)
+        if r[0] != "return":
+            raise ModelRaise(r[1], r[2] if len(r) > 2 else "")
+        return r[1]
+
+    stale_state_rule(chk, "C10.H.no-stale-state", _call, circuit_snapshot, FILE, "ternary")
     chk.floor("ternary evaluations", n, 100)
